@@ -33,7 +33,7 @@ LEVEL_TEXT = (
 )
 LEVEL_NOTE = "Trusts the step observer (live WORKING vs displayed READY on absence steps) and the dump of all logs."
 
-CFG_A = gen.Cfg(facilities=True, max_time=[40, 80], float_mode=8, abs_max=14, abs_p=2, abs_size=6)
+CFG_A = gen.Cfg(warm=4, facilities=True, max_time=[40, 80], float_mode=8, abs_max=14, abs_p=2, abs_size=6)
 CFG_B = gen.Cfg(
     servable=3,
     facilities=True,
